@@ -192,6 +192,9 @@ def predicate(kind, args, impl):
         return (impl == "1") == want, "documented domain says accept=%s" % want
     if kind in ("newfixed", "newlimit", "newrandom", "newexpo", "newjitter"):
         want = ref_ctor(kind, args)
+        if impl not in ("0", "1"):
+            # the builder route: an accepted policy that cannot be used, or Build() answers that differ between calls
+            return False, "documented domain says accept=%s on every Build" % want
         return (impl == "1") == want, "documented domain says accept=%s" % want
     if kind == "delay":
         return ref_delay_ok(args, impl)
